@@ -140,8 +140,9 @@ def table_count(schema, n):
         total += (len(alphabet_bytes(schema)) ** k) * (per_op ** len(schema.ops)) * (2 ** ((k + 1) * schema.nchk))
     return total
 
-def bound_for(schema, cap):
-    n = schema.n
+def bound_for(schema, cap, extra=0):
+    """largest input length whose table count fits under cap; the thorough tier may go one byte beyond the schema's own n"""
+    n = min(schema.n + extra, 4)
     while n > 1 and table_count(schema, n) > cap: n -= 1
     return n
 
@@ -400,7 +401,7 @@ pub mod %(name)s {
         Ok(())
     }
 }
-''' % dict(name=schema.name, n=schema.n, alphabet=alphabet, used_ops=str(used_ops), nchk=schema.nchk,
+''' % dict(name=schema.name, n=min(schema.n + 1, 4), alphabet=alphabet, used_ops=str(used_ops), nchk=schema.nchk,
            cmp_err='true' if schema.cmp_err else 'false', allow_sentinel='true' if schema.allow_sentinel else 'false', cmp_fields='true' if schema.cmp_fields else 'false',
            support=schema.support, nonzero=nonzero, unused=unused, ctx_new=ctx_new, tracer=tracer, ctx_ty=ctx_ty,
            ctx_val=ctx_val, root=schema.root, extract=schema.extract, oracle=oracle, root_call=root_call, ok_bind=ok_bind,
